@@ -7,7 +7,7 @@
     value is what the correspondence check observes. *)
 From Chokan Require Import Base.Str Base.ListUtil Dic.Speech Dic.PegAlt Gen.SpeechNames Gen.DicGrammar Dic.TextFormat
   Dic.ConjRule Gen.ConjTables Dic.Conjugation Dic.Gojuon Dic.ConjProofs
-  Gen.SkkGrammar Skk.SkkLine Skk.SkkProofs Skk.SkkParse Gen.SkkOkuri Skk.Notes Skk.NotesConv Skk.NotesProofs Skk.NotesParse.
+  Gen.SkkGrammar Skk.SkkLine Skk.SkkProofs Skk.SkkParse Gen.SkkOkuri Skk.Notes Skk.NotesConv Skk.NotesProofs Skk.NotesParse Skk.NotesPrint Skk.NotesFaithful.
 Local Open Scope N_scope.
 
 (** the SKK parser returns exactly the reading, okuri letters and candidate words written in a well-formed line,
@@ -34,6 +34,12 @@ Proof. exact propers_line_to_dictionary. Qed.
 Theorem C18_tankan_line_to_dictionary : forall s es, mem_chr NL s = false -> parse_tankan s = Some (Some es) ->
   forall e, In e es -> parse_line (print_entry e) = Some [e].
 Proof. exact tankan_line_to_dictionary. Qed.
+
+(** the notes parser returns exactly the structure a well-formed notes line writes (Skk/NotesPrint.v: headword, okuri
+    letter, and per candidate the stem with each listed speech - fixed and class okuri, a second ignored okuri, headers,
+    notes, derived / okuri-nasi / bare candidates; the subsidiary verb yields nothing), annotations stripped *)
+Theorem C18_notes_faithful : forall w, w_note_ok w = true -> parse_note (print_note w) = Some (expected w).
+Proof. exact parse_print_note. Qed.
 
 (** the notes converter produces entries or takes its explicit unsupported-conjugation rejection, nothing else *)
 Theorem C18_notes_total : forall n, forallb (fun e => speech_supported (ne_speech e)) (nt_entries n) = true -> exists l, note_to_converted n = Ok l.
@@ -80,6 +86,7 @@ Print Assumptions C18_simple_emitted_valid.
 Print Assumptions C18_nouns_line_to_dictionary.
 Print Assumptions C18_propers_line_to_dictionary.
 Print Assumptions C18_tankan_line_to_dictionary.
+Print Assumptions C18_notes_faithful.
 Print Assumptions C18_notes_total.
 Print Assumptions C18_notes_fail_only_unsupported.
 Print Assumptions C18_parse_note_wf.
